@@ -32,6 +32,11 @@ def subtree(rng, gate, trace_dir):
     if gate == "perf-master":
         on = gate_cfg(rng, "perf", True)
         on["perf"]["enabled"] = True
+        if rng.random() < 0.35:
+            # the on-disk embedding-store reader, pointed at a store that really exists (written by check_case)
+            on["perf"].setdefault("t2", {})
+            on["perf"]["t2"].update({"embed_store_dtype": "fp32", "precompute_norms": True,
+                                     "reader": {"partitions": {"enabled": True, "layout": rng.choice(["none", "owner_quarter"]), "path": os.path.join(os.path.dirname(trace_dir), "store")}}})
         off = copy.deepcopy(on)
         off["perf"]["enabled"] = False
         return off, on
@@ -200,6 +205,21 @@ def check_case(case, sess: Session):
     gate = case["gate"]
     with tmpdir("c02t_") as trace_dir:
         off_sub, on_sub = subtree(rng, gate, os.path.join(trace_dir, "q"))
+        store_path = ((((off_sub.get("perf") or {}).get("t2") or {}).get("reader") or {}).get("partitions") or {}).get("path")
+        if store_path:
+            # a (stale) embedding store: some of the world's episodes under their ids plus foreign ones
+            try:
+                import numpy as np
+                from clematis.engine.util.embed_store import write_shard
+                from clematis.adapters.embeddings import DeterministicEmbeddingAdapter
+                enc = DeterministicEmbeddingAdapter(dim=32)
+                eps_ = case["world"]["eps"][::2]
+                ids_ = [e["id"] for e in eps_] + [f"old{i}" for i in range(4)]
+                vecs_ = [enc.encode([e["text"]])[0] for e in eps_] + [enc.encode([f"hello world reply {i}"])[0] for i in range(4)]
+                write_shard(os.path.join(store_path, "shard-000"), ids_, np.stack(vecs_).astype(np.float32), dtype="fp32", precompute_norms=True)
+                sess.count("cases_with_an_embedding_store_on_disk")
+            except Exception as ex:
+                sess.inconclusive_because(f"could not write the embedding store: {type(ex).__name__}: {ex}")
         cfg_a = merge(case["base"], off_sub)
         cfg_b = strip_subtree(gate, cfg_a)
         cfg_on = merge(case["base"], on_sub)
